@@ -26,7 +26,7 @@ RULE = ('case = (n records, position k of the faulty record, fault kind, format,
         'k on). The extraction tool run on the same file must print "Error detected in record k". Distinct by construction.')
 ASSUMPTIONS = ['vmon/ref/codec.py, vmon/ref/blocking.py build the files and the expected dicts', 'tool run in-process with out_encoding utf8']
 KINDS = ('truncated_record', 'oversized_length', 'undecodable_mti', 'unknown_bitmap_bit', 'bad_field_length', 'bad_typed_value',
-         'bad_pds_content', 'bad_icc_content', 'trailing_bytes', 'bad_decimal_value', 'short_message')
+         'bad_pds_content', 'bad_icc_content', 'trailing_bytes', 'bad_decimal_value', 'short_message', 'element_removed_from_used_config')
 FRAMING = ('truncated_record', 'oversized_length')
 # how the caller walks the reader: the statement is about iteration, however it is spelled
 CONSUME = ('for', 'for', 'next_only', 'list', 'next_then_for', 'next2_then_list', 'islice_then_for', 'iter_twice')
@@ -80,6 +80,8 @@ def faulty_wire(kind, wire, enc):
     if kind == 'bad_typed_value':
         off = hdr + 2 + 16 + 6          # DE4 starts after DE2 (LL+16) and DE3 (6)
         return wire[:off] + 'ABCDEFGHIJKL'.encode(enc) + wire[off + 12:]
+    if kind == 'element_removed_from_used_config':
+        return wire          # nothing wrong with the bytes: the configuration changes under them (see judge)
     if kind == 'short_message':
         # a record that ends inside its own header: MTI alone, or MTI and a few bitmap bytes that flag nothing
         variants = (wire[:4], wire[:4] + b'\x80\x00', wire[:4] + b'\x00' * 8, wire[:4] + b'\x80' + b'\x00' * 14, wire[:2],
@@ -126,9 +128,17 @@ def judge(ctx, case):
     n, k, kind, enc = case['n'], case['k'], case['fault'], case['enc']
     blocked = case['fmt'] == '1014'
     cfg = msgwork.cfg_of('packaged')
-    custom = kind == 'bad_decimal_value'
+    custom = kind in ('bad_decimal_value', 'element_removed_from_used_config')
     rng = ctx.rng_global('file', n, k, kind, enc)
-    if custom:
+    if kind == 'element_removed_from_used_config':
+        # record k alone carries DE10; the whole file is first read under a caller-supplied configuration that knows DE10,
+        # then DE10 is deleted from that same configuration object: record k now uses an element without configuration
+        cfg = copy.deepcopy(cfg)
+        msgs = [good_message(rng, enc, i) for i in range(n)]
+        msgs[k - 1]['DE10'] = 12345678
+        wires = [ref.encode(x, cfg, enc) for x in msgs]
+        ctx.count('files read under a caller-supplied configuration')
+    elif custom:
         # a caller-supplied configuration with a decimal element (the packaged one has none): same rules
         cfg = copy.deepcopy(cfg)
         cfg['9'] = dict(cfg['9'], field_python_type='decimal')
@@ -193,6 +203,11 @@ def judge(ctx, case):
             data = full[:p + 2 * (p // 1012) - (2 if mode == 'on_first_fill_byte' else 1)]
     got = []
     rdr = []
+    if kind == 'element_removed_from_used_config':
+        ctx.call(lambda: list(m.IpmReader(io.BytesIO(data), encoding=enc, blocked=blocked, iso_config=cfg)),
+                 budget=sentinel.budget_for(len(data)) + 200000)
+        del cfg['10']
+        ctx.count('files re-read after an element was deleted from the used configuration object')
 
     consume = case.get('consume', 'for')
     ctx.seen('consumption styles', consume)
@@ -318,8 +333,8 @@ def canaries(ctx):
     rng = ctx.rng_global('canary')
     w = ref.encode(good_message(rng, 'latin_1', 0), cfg, 'latin_1')
     for kind in KINDS:
-        if kind in FRAMING:
-            continue
+        if kind in FRAMING or kind == 'element_removed_from_used_config':
+            continue            # (the latter changes the configuration, not the bytes)
         bad = faulty_wire(kind, w, 'latin_1')
         try:
             ref.decode_strict(bad, cfg, 'latin_1')
